@@ -1723,10 +1723,8 @@ fiHalt(FiSInt i)
 	default:
 		fiRaiseException((FiWord)"(Aldor error) Halt");
 		exit((int)i);
-	case -1:
-		break;	/* To quiet compilers which think "exit" returns. */
 	}
-	return 0;
+	return 0;	/* To quiet compilers which think "exit" returns. */
 }
 
 FiWord
